@@ -550,7 +550,8 @@ class Collection(object):
 
     def _ensure_uniques(self, new_data):
         # Note we consider new_data is already inserted in db
-        for index in self._store.indexes.values():
+        # (a snapshot of the indexes: another thread may create one meanwhile)
+        for index in list(self._store.indexes.values()):
             if not index.get('unique'):
                 continue
             unique = index.get('key')
